@@ -5,6 +5,7 @@ mod choice;
 mod engine;
 mod json;
 mod link;
+mod models;
 mod orch;
 mod props;
 mod refs;
